@@ -432,3 +432,18 @@ PINNED = {"P6a-swap-shape-estimated": _pin_swap_shape,
           "P18-estimate-shape-misses-coordinates": _pin_p18,
           "P6b-swizzle-drops-formats-mutability": _pin_swizzle_attrs,
           "P23-tuple-flatten-nested-active-range": _pin_tuple_active}
+
+
+def _pin_p25():
+    t = Tensor(rank_ids=["M", "K", "N"], shape=[2, 1, 1])
+    t.getPayloadRef(0)
+    t.getPayloadRef(1, 0, 0)        # explicit default only
+    s = t.swapRanks(depth=0)
+    try:
+        coords_in_shape(s, "swapRanks of an all-empty tensor")
+    except Violation as v:
+        return v.msg
+    return None
+
+
+PINNED["P25-swap-empty-tensor-unswapped-root"] = _pin_p25
